@@ -223,6 +223,17 @@ func (e *Engine) registerIntrinsics() {
 	in["vf:vfSymbolic"] = func(w *Worker, g *G, fr *Frame, fn *ssa.Function, a []Value) (Value, ctl) {
 		return TTrue, ctlNext
 	}
+	in["vf:vfQuiesce"] = func(w *Worker, g *G, fr *Frame, fn *ssa.Function, a []Value) (Value, ctl) {
+		// block until every other goroutine is blocked or finished
+		for _, x := range w.st.gs {
+			if x != g && x.status == gRunnable {
+				g.status = gBlocked
+				g.waitOn = "quiesce"
+				return nil, ctlStay
+			}
+		}
+		return nil, ctlNext
+	}
 	in["vf:vfYield"] = func(w *Worker, g *G, fr *Frame, fn *ssa.Function, a []Value) (Value, ctl) {
 		w.st.extra = setExtra(w.st.extra, "yield", true)
 		return nil, ctlNext
